@@ -109,3 +109,19 @@ func init() {
 		RequiredProbes: []string{"reject.auth.propose", "reject.auth.delete", "reject.auth.update-proposer", "reject.auth.update-challenger", "reject.auth.update-batch-info", "reject.auth.update-metadata", "reject.auth.update-oracle-config", "reject.auth.update-params",
 			"reject.auth.finalize-deposit", "reject.auth.set-bridge-info", "reject.auth.execute-messages", "reject.exec.inner-signer", "reject.bridgeinfo.repoint", "reject.auth.add-validator", "reject.auth.spend-fee-pool"}})
 }
+
+func init() {
+	comp := map[string]string{}
+	for k, v := range l2Components {
+		comp[k] = v
+	}
+	comp["connect vote-extension / extended-commit codecs, vote aggregator, stake-weighted median"] = "real (dependencies the module instantiates)"
+	comp["L1 validators"] = "stub: 5-9 ed25519 keys signing real CanonicalVoteExtension bytes"
+	comp["oracle relayer"] = "stub: Byzantine actor assembling extended commits"
+	comp["IBC light-client update path"] = "stub: block-level input applied in PreBlock through Keeper.UpdateHostValidatorSet"
+	core.Register(&core.Scenario{ID: "C15", Level: "exploration", Run: runC15, Components: comp,
+		Assumptions: []string{"the IBC client update path is represented by a block-level input calling Keeper.UpdateHostValidatorSet", "outer tx signatures are not verified; vote-extension signatures are real ed25519 signatures"},
+		Rule: "histories interleaving validator-set refreshes (higher / equal / lower height, configured / foreign / empty client id), admin traffic (oracle flag, executor rotation) and oracle updates assembled by a Byzantine relayer from really signed vote extensions: dropped votes, signatures bound to another chain id / height / round, forged / truncated / swapped signatures, absent and nil votes with or without extensions, duplicated entries with attacker prices, repeated votes, unknown validators with huge claimed power, stale timestamps, heights older than the recorded set, replays of earlier payloads, non-executor senders; oracle: independent recount (2/3 of the recorded power among distinct validators with valid signatures per changed pair, new price within the signed votes, strictly increasing timestamps, failed updates change nothing, honest full-quorum updates apply); non-trivial = >=1 accepted and >=1 rejected update",
+		QuickRuns: 600, QuickSecs: 70, ThoroughRuns: 30000, ThoroughSecs: 700,
+		RequiredProbes: []string{"oracle.accepted", "oracle.rejected", "oracle.honest-update-applied", "oracle.prices-changed"}})
+}
